@@ -19,6 +19,7 @@ SPEC = {
               2: "spec_okb latest (C09: a reported metric is invalid, expired, not the most recent of its peer, not a member, or a peer appears twice)",
               10: "spec_okb no_alert_when_fresh (C09: alert for a (name, peer) whose most recent metric has not expired)",
               11: "spec_okb alert_once (C09: more than one alert for a (name, peer) since its last metric arrived)",
+              13: "spec_okb expired_is_reported (C09: CheckPeers saw a (name, peer) whose most recent metric had expired, never alerted for, and did not alert)",
               12: "spec_okb cadence (C09: a metric was republished after the previous one had expired, or stamped with too short a TTL)"},
     "trusted": ["the harness steers time by rewriting Expire (+/- 1 h) and the accrual verdict by rewriting ReceivedAt of the metrics it holds pointers to; "
                 "api.Metric.Expired / Discard are exercised through that, the phi arithmetic (prob.go) only at its two extremes",
